@@ -49,7 +49,7 @@ CHECKS = {
          "Held on the histories explored: generated workflows (plain, join, with-items with/without concurrency, retry, sub-workflows) run to ERROR, then rerun (reset on/off) or skip of a failed task with a new outcome, drained, repeated up to 3 times; oracle: workflow, enclosing workflows and parent tasks RUNNING right after the request and the task leaves ERROR first, normal form at quiescence equal to a fresh run with the new outcomes from the start (engine vs engine), with-items reruns exactly the failed items (reset off) or all items once (reset on), skip => SKIPPED with its on-skip / on-success successors, requests for tasks not in ERROR refused. Also rerun after a handled failure (on-error handler ending in the fail command or failing itself; new attempt possibly without successors) judged by the universal monitors.",
          "runtime monitoring: metamorphic equality of recorded final rows (rerun history vs fresh run) + trace monitors on row history after each rerun request"),
  'C13': ('fault_enumeration',
-         "Held on the schedules and crash points enumerated: 1..3 real DefaultScheduler / LegacyScheduler instances on the shared database, 1..3 jobs scheduled in committing / rolling-back / object-expiring transactions; interleavings of persist, in-memory dispatch, store poll and clock steps with yield points before every DB-API call (dfs by re-execution + randomized strategies); for recorded schedules a sys.monitoring LINE failpoint kills an instance at its k-th statement, for every k; oracle over the invocation log (at least once if committed, never early, exactly once without crash, never if rolled back) and has_scheduled_jobs(key, processing=False) compared with the committed rows at every unit boundary.  Thread mode: the real DefaultScheduler._dispatcher thread runs against the virtual clock (instrumented condition variable: virtual time-outs, scheduler notifies and spurious wake-ups; recording executor) under random operation sequences (schedule / advance by fractions of a second / spurious wake-up / run / poll / stop + restart); oracle over the dispatcher log: no submission before execute_at on the service clock, none twice, none after stop(), thread neither dies nor survives stop().",
+         "Held on the schedules and crash points enumerated: 1..3 real DefaultScheduler / LegacyScheduler instances on the shared database, 1..3 jobs scheduled in committing / rolling-back / object-expiring transactions; interleavings of persist, in-memory dispatch, store poll and clock steps with yield points before every DB-API call (dfs by re-execution + randomized strategies); for recorded schedules a sys.monitoring LINE failpoint kills an instance at its k-th statement, for every k; oracle over the invocation log (at least once if committed, never early, exactly once without crash, never if rolled back) and has_scheduled_jobs(key, processing=False) compared with the committed rows at every unit boundary.  Thread mode: the real DefaultScheduler._dispatcher thread runs against the virtual clock (instrumented condition variable: virtual time-outs, scheduler notifies and spurious wake-ups; recording executor) under random operation sequences (schedule / advance by fractions of a second / spurious wake-up / run / poll / stop + restart); oracle over the dispatcher log: no submission before execute_at on the service clock, none twice, none after stop(), thread neither dies nor survives stop().  A deadlock reported at the k-th writing statement of one instance (transient error, nobody dies): the full oracle applies.",
          "runtime monitoring: offline checker over the recorded invocation log and dispatcher log + per-boundary assertion on the key query, under dfs interleaving, sys.monitoring statement-level crash injection and a virtual-time condition variable for the real dispatcher thread"),
  'C14': ('exploration',
          "Held on the inputs explored: structure-aware and text-level mutants of every bundled YAML definition and of generated workflows, each through the workflow-list / workbook / action-list parsers with validation on and a share through the definition services (create/update with the DB); oracle: accepted or a declared 4xx definition error, never another exception nor a call over the time budget; for accepted definitions the specification rebuilt from its stored dict is equal through the public getters and every member cut out of a workbook text parses to the member written in the workbook. Operators include transplant / schema-key (words of the language with schema-valid values put elsewhere) and inline-list (bracketed inline parameters); every case runs in a child process under a faulthandler watchdog (killed twice, the second time alone with ten times the budget => hang).",
